@@ -394,6 +394,12 @@ def normalise(x):
             y["arrow"] = True
             y["b"] = b["e"]
             return y
+    elif k == "bin" and x.get("op") in ("+", "*", "&", "|", "^") and int_value(x["l"]) is not None and int_value(x["r"]) is None \
+            and not _is_ptr(x["r"]) and not _is_ptr(x["l"]):
+        # commutative with a constant operand: the constant goes to the right (`1U + x` is `x + 1U`)
+        y = dict(x)
+        y["l"], y["r"] = x["r"], x["l"]
+        return y
     elif k == "un" and x.get("op") == "&":
         e = x["e"]
         if isinstance(e, dict) and e.get("k") == "idx" and _is_ptr(e["b"]) and not _type_of(e["b"]).rstrip().endswith("]"):
@@ -703,6 +709,28 @@ class Function:
                            and strip_casts(e).get("k") not in ("init", "str")}
         return self._sdefs
 
+    def stable_defs(self):
+        """single_defs() whose initialiser reads only objects that nothing in the function writes (so the temporary equals the expression
+        at every later point, not only where it was taken)."""
+        if getattr(self, "_stdefs", None) is None:
+            written = set()
+            for b, i, x, line in self.cfg.all_elems():
+                if not isinstance(x, dict):
+                    continue
+                for l, kind, n in writes(x):
+                    if kind != "decl":
+                        written.add(lv(l))
+                for l in addr_taken(x):
+                    written.add(lv(l))
+            out = {}
+            for name, e in self.single_defs().items():
+                leaves = [lv(n) for n in walk(e) if n.get("k") in ("ref", "mem", "idx") and not (n.get("k") == "ref" and n.get("dk") in ("enum", "fn"))]
+                if not any(t == w or t.startswith(w + ".") or t.startswith(w + "->") or t.startswith(w + "[") or w.startswith(t + ".")
+                           for t in leaves for w in written):
+                    out[name] = e
+            self._stdefs = out
+        return self._stdefs
+
     def expand(self, x, depth=4):
         """x with references to single-definition temporaries replaced by their initialisers (copy propagation for matching)."""
         sd = self.single_defs()
@@ -742,8 +770,11 @@ class Program:
         self.renamed = []
         if not os.environ.get("ECHSE_NO_INLINE"):
             from .inline import known_functions as _kf
-            from .rename import resolve_renames
+            from .rename import resolve_renames, byvalue_scalars
             self.renamed = resolve_renames(docs, _kf())
+            self.byvalue = byvalue_scalars(docs)
+            from .rename import restore_param_conventions
+            self.conventions = restore_param_conventions(docs, _kf())
         self.units = {os.path.basename(d["unit"]): d for d in docs}
         self.functions = defaultdict(list)
         seen = set()
